@@ -105,6 +105,30 @@ def _r6_iter_mut_take_skip(text):
     return "".join(out), n
 
 
+def _r13_neg(text):
+    """unary minus applied to an identifier path / call / float literal -> vf_neg(..)   (opt-in: //@rule R13;
+    only for functions whose negated operands are all f64)"""
+    rx = re.compile(r"(?P<pre>(?:^|[\(\[,=<>&|+\-*/{;:!]|\breturn|\bif|\belse|\bin|=>)\s*)-(?P<op>(?:\d[\d_]*\.\d[\d_]*(?:[eE][+-]?\d+)?(?:_?f64)?)|(?:[A-Za-z_]\w*(?:\.\w+|::\w+)*(?:\([^()]*\))?(?:\.\w+(?:\([^()]*\))?)*))", re.M)
+    n = 0
+
+    def rep(m):
+        nonlocal n
+        n += 1
+        return "%svf_neg(%s)" % (m.group("pre"), m.group("op"))
+    return rx.sub(rep, text), n
+
+
+def _r1b_partition_point(text):
+    rx = re.compile(r"(\w+(?:\s*\.\s*\w+)*)\s*\.\s*partition_point\(\s*\|\s*(\w+)\s*\|\s*\*\s*\2\s*(<=|<)\s*([\w\.]+)\s*\)")
+    n = 0
+
+    def rep(m):
+        nonlocal n
+        n += 1
+        return "vf_partition_point_%s(&%s, %s)" % ("lt" if m.group(3) == "<" else "le", re.sub(r"\s+", "", m.group(1)), m.group(4))
+    return rx.sub(rep, text), n
+
+
 def _r10_compound_float(text):
     # X += e;  X -= e;  X *= e; X /= e   (X: simple place expression) -> X = X op (e);
     rx = re.compile(r"(?m)^(\s*)([\w\.\[\]\(\), \+\-\*]*?[\w\]\)])\s*([\+\-\*/])=\s*([^;=][^;]*);")
@@ -123,6 +147,7 @@ def _r10_compound_float(text):
 GENERIC_RULES = [
     ("R1", "X.binary_search_by(|v| v.partial_cmp(&Y).unwrap()) -> vf_bsearch_f64(&X, Y)",
      _r1_bsearch),
+    ("R1b", "X.partition_point(|v| *v < Y) -> vf_partition_point_lt(&X, Y) (assumed std contract, sorted input)", _r1b_partition_point),
     ("R2", "for (i, P) in E.iter().enumerate() -> index loop", _r2_enumerate),
     ("R3", "error values -> Err(VErr)",
      lambda t: _rx(r"Err\(\s*Box::from\((?:[^()]|\([^()]*\))*\)\s*\)", "Err(VErr)")(t)),
@@ -130,11 +155,13 @@ GENERIC_RULES = [
      lambda t: _rx(r'Err\(\s*"\s*"\s*(?:\.to_string\(\))?\s*\.into\(\)\s*\)', "Err(VErr)")(t)),
     ("R6", "iter_mut().enumerate().take(A).skip(B) -> index loop", _r6_iter_mut_take_skip),
     ("R10", "compound assignment on places -> plain assignment", None),  # applied only when requested
+    ("R13", "unary minus on f64 operands -> vf_neg", None),  # applied only when requested
 ]
 
 RULE_DESCR = {
     "R0": "strip comments/doc/attributes/visibility",
     "R1": "binary_search_by(partial_cmp) idiom -> vf_bsearch_f64 (assumed std contract; NaN panic dropped)",
+    "R1b": "partition_point(|v| *v < Y) idiom -> vf_partition_point_lt/le (assumed std contract)",
     "R2": "iter().enumerate() / for &x in iter() -> index loop",
     "R3": "error values/messages -> Err(VErr)",
     "R3b": "string error values -> Err(VErr)",
@@ -145,6 +172,7 @@ RULE_DESCR = {
     "R8": "iter().map(F).collect() -> explicit push loop",
     "R9": "float literal -> generated axiom rv(lit) == exact decimal value",
     "R10": "compound float assignment -> plain assignment",
+    "R13": "unary minus on f64 -> vf_neg",
     "R11": "nalgebra/parry expression -> prelude stand-in call (assumed dependency contract)",
     "R12": "std idiom outside Verus' subset -> prelude helper with assumed std contract",
 }
@@ -368,6 +396,12 @@ def process_block(blk, repo_root, log, auto_prologue):
                 text, n = _r10_compound_float(text)
                 if n:
                     entry["rules"]["R10"] = n
+            continue
+        if rid == "R13":
+            if "R13" in blk.userule:
+                text, n = _r13_neg(text)
+                if n:
+                    entry["rules"]["R13"] = n
             continue
         text, n = fn(text)
         if n:
